@@ -244,7 +244,7 @@ func (c *crashCtx) checkImage(d *simfs.Disk, admissible []*refLog, replay []stri
 	first, last, entries, rerr := readAll(w)
 	if rerr != nil {
 		c.add("C02", "an index inside [FirstIndex, LastIndex] is not readable after recovery", rerr.Error(), replay)
-		w.Close()
+		c.usabilityProbe(w, d, replay)
 		return nil, nil
 	}
 	var matched *refLog
@@ -268,7 +268,7 @@ func (c *crashCtx) checkImage(d *simfs.Disk, admissible []*refLog, replay []stri
 			}
 		}
 		c.add(prop, what, fmt.Sprintf("recovered first=%d last=%d n=%d; acknowledged first=%d last=%d n=%d", first, last, len(entries), a.firstIndex(), a.lastIndex(), len(a.entries)), replay)
-		w.Close()
+		c.usabilityProbe(w, d, replay)
 		return nil, nil
 	}
 	// stable keys of acknowledged Sets survive (C08)
@@ -295,6 +295,65 @@ func (c *crashCtx) checkImage(d *simfs.Disk, admissible []*refLog, replay []stri
 		c.add("C13", "after Open the directory does not hold exactly the files of the live segments", fmt.Sprintf("files=[%s] live=[%s]", got, strings.Join(want, " ")), replay)
 	}
 	return w, matched.clone()
+}
+
+// usabilityProbe: C03 is independent of what was recovered — whatever log Open came back with, it must accept an
+// append at its own LastIndex+1, read it back, accept a stable write, and the directory must open again. Called
+// on images whose content check already failed (the content violation is reported under its own property). Closes w.
+func (c *crashCtx) usabilityProbe(w *wal.WAL, d *simfs.Disk, replay []string) {
+	defer func() {
+		if p := recover(); p != nil {
+			c.add("C03", "recovered WAL panics on use", fmt.Sprint(p), replay)
+		}
+	}()
+	last, _ := w.LastIndex()
+	first, _ := w.FirstIndex()
+	next := last + 1
+	l := &raft.Log{Index: next, Term: 9, Type: raft.LogCommand, Data: []byte("probe")}
+	if err := w.StoreLogs([]*raft.Log{l}); err != nil {
+		c.add("C03", "recovered WAL refuses an append at LastIndex+1", fmt.Sprintf("FirstIndex=%d LastIndex=%d: %v", first, last, err), append(replay, "then: store at LastIndex+1"))
+		w.Close()
+		return
+	}
+	w.DeleteRange(math.MaxUint64, math.MaxUint64)
+	var back raft.Log
+	if err := w.GetLog(next, &back); err != nil || string(back.Data) != "probe" {
+		c.add("C03", "entry appended after recovery cannot be read back", fmt.Sprint(err), append(replay, "then: store at LastIndex+1"))
+	}
+	if err := w.Set([]byte("k-probe"), []byte("v")); err != nil {
+		c.add("C03", "recovered WAL refuses a stable-store write", err.Error(), replay)
+	}
+	w.Close()
+	w2, err := openWalOn(d, c.segSize, nil)
+	c.opens++
+	if err != nil {
+		c.add("C03", "the directory recovery left behind does not open again", err.Error(), append(replay, "then: store at LastIndex+1, Close, Open"))
+		return
+	}
+	w2.Close()
+}
+
+// cleanRestart: after recovery and further use, a plain Close/Open (no crash) must bring back exactly the ghost log —
+// recovery must not leave metadata that only the in-memory state of the recovering process papers over.
+func (c *crashCtx) cleanRestart(d *simfs.Disk, g *refLog, replay []string) {
+	replay = append(append([]string(nil), replay...), "then: append at LastIndex+1, Set, Close, Open")
+	w, err := openWalOn(d, c.segSize, nil)
+	c.opens++
+	if err != nil {
+		c.add("C03", "Open fails on the clean restart that follows a recovery", err.Error(), replay)
+		return
+	}
+	defer w.Close()
+	first, last, entries, rerr := readAll(w)
+	if rerr != nil {
+		c.add("C01", "an acknowledged entry is unreadable after the clean restart that follows a recovery", rerr.Error(), replay)
+		c.add("C02", "an index inside [FirstIndex, LastIndex] is not readable after the clean restart that follows a recovery", rerr.Error(), replay)
+		return
+	}
+	if !g.equalLog(first, last, entries) {
+		c.add("C01", "the log differs from the acknowledged log after the clean restart that follows a recovery",
+			fmt.Sprintf("got first=%d last=%d n=%d; acknowledged first=%d last=%d n=%d", first, last, len(entries), g.firstIndex(), g.lastIndex(), len(g.entries)), replay)
+	}
 }
 
 // continuation: the recovered WAL must be fully usable (C03) and its new effects durable
@@ -471,6 +530,9 @@ func (c *crashCtx) exploreCrashes(start *simfs.Disk, base *refLog, ops []string,
 			if w2, g2 := c.checkImage(img, adm, append(rp, "kind: process crash")); w2 != nil {
 				ok := c.continuation(w2, img, g2, r, append(rp, "kind: process crash"))
 				w2.Close()
+				if ok {
+					c.cleanRestart(img, g2, append(rp, "kind: process crash"))
+				}
 				if ok && depth > 1 && r.Intn(3) == 0 {
 					c.exploreCrashes(img, g2, []string{"open", fmt.Sprintf("store %s", logTok(&raft.Log{Index: g2.lastIndex() + 1, Term: 10, Data: []byte("chain")}))}, r, depth-1, append(rp, "kind: process crash", "continued"), false)
 				}
@@ -485,6 +547,9 @@ func (c *crashCtx) exploreCrashes(start *simfs.Disk, base *refLog, ops []string,
 				if w2, g2 := c.checkImage(img, adm, rp2); w2 != nil {
 					ok := c.continuation(w2, img, g2, r, rp2)
 					w2.Close()
+					if ok {
+						c.cleanRestart(img, g2, rp2)
+					}
 					if ok && depth > 1 && r.Intn(6) == 0 {
 						c.exploreCrashes(img, g2, []string{"open", fmt.Sprintf("store %s", logTok(&raft.Log{Index: g2.lastIndex() + 1, Term: 10, Data: []byte("chain")})),
 							fmt.Sprintf("del %d %d", g2.firstIndex(), g2.firstIndex())}, r, depth-1, append(rp2, "continued"), false)
